@@ -96,6 +96,11 @@ func (f changeFinder) changed() {
 func (f changeFinder) commentsFor(n *value) (before, after []*ast.Comment) {
 	pos, end := n.Pos(), n.End()
 	for _, cg := range n.Comments {
+		// An earlier change may have deleted every comment of the group.
+		if len(cg.List) == 0 {
+			continue
+		}
+
 		if cg.End() <= pos {
 			before = append(before, cg.List...)
 		}
